@@ -289,9 +289,9 @@ CHECKS["C23"] = dict(
 CHECKS["C21"] = dict(
     level="exploration",
     technique="cross-component differential monitor: the real `ord wallet batch` runs on generated batch files and wallets; the harness mines the commit and reveal transactions it broadcast, the real indexer processes them, and the command's JSON report is compared with the index (ids, satpoints, destination scripts, recorded parents, fees) and with the set of inscribed / runic wallet outputs before the command",
-    level_text="Exploration over batch descriptions x wallet states: four modes (separate-outputs, shared-output, same-sat with and without an explicit satpoint, satpoints) x 1-7 inscriptions x 0-2 parents x postage {none, 546 .. 20000} x per-inscription destinations (wallet / foreign / default) x metadata / metaprotocol / delegate / title+traits x fee rates x --compress, on wallets with 4-8 cardinals, 1-3 inscribed outputs and a runic output, with and without a sat index; several batches in a row per wallet (outputs of earlier batches become parents). About 10^2 batches per quick run. Etching inside a batch (which waits for 6 confirmations) is not driven.",
-    rule="for every successful command: the indexer created exactly the reported ids (reveal txid, consecutive indices); each is at the reported satpoint, in an output paying the reported destination (= the batch file's destination when given), records exactly the batch file's parents, and is not unbound / lost / burned; reported parents = batch file parents and each parent ends in an output paying a wallet address; commit and reveal spend no inscribed or runic wallet output other than the parents (reveal); reported total_fees = inputs - outputs of both transactions. A failed command must leave nothing in the mempool. distinct = (mode, inscriptions, parents, postage, sat index).",
-    floors={"evaluations": 40, "wallets": 8, "batches_ok": 30, "batches_ok_separate-outputs": 4, "batches_ok_shared-output": 4, "batches_ok_same-sat": 4, "batches_ok_satpoints": 3, "batches_ok_with_parents": 10, "batches_ok_with_postage": 5, "batches_ok_with_destinations": 4, "inscriptions_created_and_compared": 80},
+    level_text="Exploration over batch descriptions x wallet states: four modes (separate-outputs, shared-output, same-sat with and without an explicit satpoint, satpoints) x 1-7 inscriptions x 0-2 parents x postage {none, 546 .. 20000} x per-inscription destinations (wallet / foreign / default) x metadata / metaprotocol / delegate / title+traits x fee rates x --compress, on wallets with 4-8 cardinals, 1-3 inscribed outputs and a runic output, with and without a sat index; several batches in a row per wallet (outputs of earlier batches become parents). About 10^2 batches per quick run." + " One batch in four also etches a rune (13-16 letters, optional spacer, divisibility 0-3, premine incl. 0, optional terms): a miner thread confirms the commit while the command waits for maturation.",
+    rule="for every successful command: the indexer created exactly the reported ids (reveal txid, consecutive indices); each is at the reported satpoint, in an output paying the reported destination (= the batch file's destination when given), records exactly the batch file's parents, and is not unbound / lost / burned; reported parents = batch file parents and each parent ends in an output paying a wallet address; commit and reveal spend no inscribed or runic wallet output other than the parents (reveal); reported total_fees = inputs - outputs of both transactions; an etching in the batch file creates the named rune (etching = reveal txid, premine and divisibility as given) with the premine at the reported location in an output paying the reported wallet address. A failed command must leave nothing in the mempool. distinct = (mode, inscriptions, parents, postage, sat index).",
+    floors={"evaluations": 40, "wallets": 8, "batches_ok": 30, "batches_ok_separate-outputs": 4, "batches_ok_shared-output": 4, "batches_ok_same-sat": 4, "batches_ok_satpoints": 3, "batches_ok_with_parents": 10, "batches_ok_with_postage": 5, "batches_ok_with_destinations": 4, "batches_ok_with_etching": 5, "inscriptions_created_and_compared": 80},
     shards_quick=16, budget_quick=50, shards_thorough=16, budget_thorough=480, release_pass=False, miri=False,
     assumptions=WALLET_ASSUME, crash_is_violation=True)
 
